@@ -6,6 +6,7 @@ JSON/YAML/MessagePack(ignore_wrappers=False) with polymorphic on/off, both
 directions. Monitors: runtime class/field recorder in user code, reference
 decoders on the wire, QName resolver for xsi:type in the transmitted bytes.
 """
+import re
 import base64
 
 from lxml import etree
@@ -56,7 +57,8 @@ def universe(seed, uid):
             cands = [t['name'] for t in types if depth_of(types, t['name']) < 3]
             base = rng.choice(cands) if cands else None
         fields = []
-        for j in range(rng.randint(1, 3) if (base is None or rng.random() > .25) else 0):      # some subclasses only inherit
+        # some subclasses only inherit; in every fourth universe the first root class has no member of its own either
+        for j in range(0 if (i == 0 and uid % 4 == 3) else rng.randint(1, 3) if (base is None or rng.random() > .25) else 0):
             r = rng.random()
             if r < .65:
                 ft = gen.rand_prim(rng, o, allow_occ=False)
@@ -400,5 +402,34 @@ def replay(v, R):
         print('replayed:', x.get('mech'), x.get('what')[:300])
 
 
+_MEMBERLESS_FAMILIES = re.compile(r'^(fault_on_request:[a-z0-9-]+:poly|(request|response)_class_or_values:[a-z0-9-]+:poly:class|xsi_type_unknown)$')
+
+
 def classify(v):
-    return v.get('mech')
+    """mechanism of a violation. One known mechanism is told apart by the universe the case comes from: the class the method declares is a root class
+    without members of its own, which spyne does not take for a base class at all (its subclasses do not extend it in the schema, and no type marker
+    leads to them)."""
+    mech = v.get('mech')
+    c = v.get('repro') or {}
+    try:
+        if mech and _MEMBERLESS_FAMILIES.match(mech) and 'uid' in c and 'method' in c and c.get('polymorphic'):
+            ir = universe(c['seed'], c['uid'])
+            tds = {t['name']: t for t in ir['types']}
+            md = [m for m in ir['services'][0]['methods'] if m['name'] == c['method']][0]
+            t = md['args'][0][1]
+            t = t.get('array') or t.get('seq') or t
+            names = [t['ref']]
+            if t['ref'] == 'Holder':
+                names = [(ft.get('array') or ft)['ref'] for fn, ft in tds['Holder']['fields'] if fn in ('one', 'many', 'must')]
+            def bare_chain(n):
+                # no member anywhere from this class up to its root: to spyne it is a root without members
+                while n is not None:
+                    if tds[n]['fields']:
+                        return False
+                    n = tds[n]['base']
+                return True
+            if any(bare_chain(n) for n in names):
+                return 'memberless_root_not_a_base'
+    except Exception:
+        pass
+    return mech
